@@ -112,6 +112,21 @@ void ParallelAction::onPause() {
 void ParallelAction::onResume() {
     AssembleAction::onResume();
 
+    //! 暂停期间有子动作结束了，其结果已记录，这里补上结束判定
+    for (const auto &item : finished_children_) {
+        if ((mode_ == Mode::kAnySucc && item.second) ||
+            (mode_ == Mode::kAnyFail && !item.second)) {
+            stopAllActions();
+            finish(true);
+            return;
+        }
+    }
+
+    if (finished_children_.size() == children_.size()) {
+        finish(true);
+        return;
+    }
+
     for (Action *action : children_) {
         if (action->state() == State::kPause)
             action->resume();
@@ -145,6 +160,12 @@ void ParallelAction::pauseAllActions() {
 }
 
 void ParallelAction::onChildFinished(int index, bool is_succ) {
+    //! 暂停期间送达的子动作结束通知不能丢，先记录，恢复时再判定
+    if (state() == State::kPause) {
+        finished_children_[index] = is_succ;
+        return;
+    }
+
     if (state() == State::kRunning) {
         finished_children_[index] = is_succ;
 
